@@ -143,6 +143,16 @@ Record sercfg := {
   t_root_indent : list piece;   (* the cur_indent passed to the children of the root *)
 }.
 
+(** Templates of the deprecated writer [Keyvalues.export()] (a generator of lines): the yields before and after
+    the children of a named block, the constant put in front of every line of the children, the yields of a leaf. *)
+Record expcfg := {
+  x_root_test : roottest;
+  x_head : list (list piece);
+  x_prefix : list piece;
+  x_tail : list (list piece);
+  x_leaf : list (list piece);
+}.
+
 Record escfg := {
   e_table : list (char * char);   (* tokenizer.ESCAPES: symbol after the backslash -> character *)
   e_excl : list char;             (* characters of ESCAPES' values that ESCAPE_RE does not match *)
